@@ -262,9 +262,67 @@ func genScript(r *rand.Rand, g *idGen, c loopCfg, n int) []opSpec {
 		return cmdSpec{Args: args, ID: id, Kind: "lk-arg-" + strings.ToLower(args[0])}
 	}
 
+	// mixed: a DEL / UNLINK / MSET naming accepted (biz:) and rejected (tmp:) keys; the filter
+	// classes with a key filter must forward it restricted to the accepted keys.  The id sits in
+	// an accepted argument, so it survives the projection.
+	keyFilter := c.Filter == "prefix-whitelist" || c.Filter == "prefix-blacklist" || c.Filter == "whitelist+cmd-blacklist"
+	acc := func() string {
+		if r.Intn(3) == 0 {
+			return fmt.Sprintf("biz:X:s:%d", r.Intn(3))
+		}
+		return own("s")
+	}
+	rej := func() string { return fmt.Sprintf("tmp:%s:s:%d", S, r.Intn(3)) }
+	mixed := func(kind int) cmdSpec {
+		id := g.next()
+		idk := fmt.Sprintf("biz:%s:s:nokey:%s", S, id)
+		var args []string
+		switch kind % 3 {
+		case 0: // MSET first: it creates the keys the DEL / UNLINK next to it remove
+			args = []string{"MSET", acc(), "mv" + strconv.Itoa(r.Intn(99)), rej(), "x"}
+			if r.Intn(2) == 0 {
+				args = append(args, rej(), "y")
+			}
+			args = append(args, acc(), val(id))
+			if r.Intn(3) == 0 { // a rejected pair at the end as well
+				args = append(args, rej(), "z")
+			}
+		case 1:
+			args = []string{"DEL"}
+			if r.Intn(2) == 0 {
+				args = append(args, rej())
+			}
+			args = append(args, acc(), rej(), idk)
+			if r.Intn(2) == 0 {
+				args = append(args, acc())
+			}
+		default:
+			args = []string{"UNLINK", acc(), rej(), acc(), idk, rej()}
+		}
+		return cmdSpec{Args: args, ID: id, Kind: "mixed-keys-" + strings.ToLower(args[0])}
+	}
+
 	var ops []opSpec
 	db := 0
 	for len(ops) < n {
+		if keyFilter && r.Intn(6) == 0 {
+			db = 0
+			k0 := r.Intn(3)
+			if r.Intn(2) == 0 {
+				// two or three of them inside one client MULTI/EXEC
+				op := opSpec{Txn: true, DB: 0}
+				for j, m := 0, 2+r.Intn(2); j < m; j++ {
+					op.Cmds = append(op.Cmds, mixed(k0+j*(1+r.Intn(2))))
+				}
+				ops = append(ops, op)
+			} else {
+				// stand-alone, back to back
+				for j, m := 0, 2+r.Intn(2); j < m; j++ {
+					ops = append(ops, opSpec{DB: 0, Cmds: []cmdSpec{mixed(k0 + j)}})
+				}
+			}
+			continue
+		}
 		if r.Intn(7) == 0 {
 			db = r.Intn(4) // databases 1..3 move the site's replication stream out of the links' database
 		}
